@@ -145,6 +145,64 @@ def run(ctx):
 
     # 7. HTTP sample through a real server
     http_sample(ctx, rng)
+    # 8. termination under a progress watchdog (one shard)
+    if ctx.shard == 1 % ctx.nshards:
+        termination(ctx, rng)
+
+
+def termination_bodies(rng):
+    """Bodies on which an implementation may loop or backtrack for very long: long class names ending in a forbidden
+    character, long dotted names, long method names and ids, very wide batches, huge number literals."""
+    out = []
+
+    def req(params=None, **kw):
+        d = {"jsonrpc": "2.0", "id": 1, "method": "echo"}
+        if params is not None:
+            d["params"] = params
+        d.update(kw)
+        return json.dumps(d)
+    for n in (24, 28, 32, 40, 54, 80, 200, 2000):
+        for tail in ("~", "-", " ", "\n", "é", ";"):
+            base = ("jsonrpclib.SimpleJSONRPCServer.SimpleJSONRPCDispatcher" * 40)[:n]
+            out.append(("long-class-name", req([{"__jsonclass__": [base + tail, []]}])))
+        out.append(("long-class-name", req([{"__jsonclass__": ["a" * n + "!", []]}])))
+        out.append(("long-class-name", req([{"__jsonclass__": [("ab." * n)[:n] + "!", []]}])))
+        out.append(("long-class-name", req([{"__jsonclass__": ["." * n + "x-", []]}])))
+        out.append(("long-class-name", req([{"__jsonclass__": ["_" * n + "/", {}]}])))
+    for n in (1000, 100000):
+        out.append(("long-method-name", req(method="m" * n)))
+        out.append(("long-method-name", req(method=("a." * n)[:n])))
+        out.append(("long-id", req(id="i" * n)))
+        out.append(("wide-batch", "[" + ",".join(['{"jsonrpc":"2.0","method":"noargs"}'] * (n // 100)) + "]"))
+        out.append(("long-string", req(["x" * n])))
+    out.append(("huge-number", '{"jsonrpc":"2.0","id":' + "9" * 5000 + ',"method":"echo"}'))
+    out.append(("huge-number", '{"jsonrpc":"2.0","id":1,"method":"echo","params":[1e' + "9" * 400 + "]}"))
+    out.append(("many-keys", "{" + ",".join('"k%d":%d' % (i, i) for i in range(20000)) + "}"))
+    return out
+
+
+def termination(ctx, rng):
+    """The dispatcher terminates: bodies run in a child interpreter under a progress watchdog."""
+    from vf import subcase
+    cases = termination_bodies(rng)
+    for version, jc in ((2.0, True), (1.0, True), (2.0, False)):
+        statuses, hung = subcase.run_bodies([b for _, b in cases], version=version, use_jsonclass=jc, stall_s=20.0)
+        for i, st in enumerate(statuses):
+            ctx.case(("termination", version, jc, cases[i][0], len(cases[i][1]), cases[i][1][:80]))
+            ctx.count("judged:termination")
+            ctx.cell("v%s" % version, "termination", "jc" if jc else "nojc", cases[i][0])
+            if st != "ok":
+                ctx.violate("raise:%s:%s" % (st.split(":")[-1], cases[i][0]),
+                            {"config": [version, "default", jc], "bclass": cases[i][0], "body_head": cases[i][1][:200],
+                             "body_len": len(cases[i][1])}, {"status": st})
+        if hung is not None and hung >= 0:
+            bclass, body = cases[hung]
+            ctx.violate("dispatcher-did-not-terminate:" + bclass,
+                        {"config": [version, "default", jc], "bclass": bclass, "body": body if len(body) < 3000 else None,
+                         "body_head": body[:200], "body_len": len(body)},
+                        {"no_progress_for_s": 20, "bodies_answered_before": hung})
+        elif hung is not None:
+            ctx.unsure("termination child died after %d bodies" % (-1 - hung))
 
 
 def http_sample(ctx, rng):
@@ -200,7 +258,7 @@ def finalize(m, tier):
     out = []
     for k, lo in (("monitor:dispatch", 5000), ("monitor:wellformed-judged", 5000), ("seen:empty-output", 20),
                   ("seen:array-output", 50), ("seen:error-object", 500), ("seen:result-object", 200),
-                  ("monitor:http-exchange", 50)):
+                  ("monitor:http-exchange", 50), ("judged:termination", 100)):
         if c.get(k, 0) < lo:
             out.append("monitor counter %s too low (%d < %d)" % (k, c.get(k, 0), lo))
     need = len(CONFIGS)
